@@ -156,7 +156,7 @@ def run(ctx):
     quick = ctx.tier == "quick"
     frng = random.Random(5)
     specs = []
-    for spec in graphs.family_specs(frng, sizes=(4, 7), ecls=graphs.ECLS_DU, vcls=graphs.VCLS_MIX):
+    for spec in graphs.family_specs(frng, sizes=(4, 7), ecls=graphs.ECLS_DU, vcls=graphs.VCLS_X):
         spec = dict(spec)
         if spec["uni"] is None:
             spec["uni"] = list(range(len(spec["verts"])))
